@@ -89,6 +89,21 @@ func (s *S3Proxy) ListBuckets(ctx context.Context, input s3response.ListBucketsI
 
 	var buckets []s3response.ListAllMyBucketsEntry
 	for _, b := range output.Buckets {
+		if !input.IsAdmin {
+			// only the buckets the requesting account owns, as
+			// recorded in the gateway acl of the bucket
+			data, err := s.GetBucketAcl(ctx, &s3.GetBucketAclInput{Bucket: b.Name})
+			if err != nil {
+				return s3response.ListAllMyBucketsResult{}, err
+			}
+			acl, err := auth.ParseACL(data)
+			if err != nil {
+				return s3response.ListAllMyBucketsResult{}, err
+			}
+			if acl.Owner != input.Owner {
+				continue
+			}
+		}
 		buckets = append(buckets, s3response.ListAllMyBucketsEntry{
 			Name:         *b.Name,
 			CreationDate: *b.CreationDate,
@@ -97,7 +112,7 @@ func (s *S3Proxy) ListBuckets(ctx context.Context, input s3response.ListBucketsI
 
 	return s3response.ListAllMyBucketsResult{
 		Owner: s3response.CanonicalUser{
-			ID: *output.Owner.ID,
+			ID: input.Owner,
 		},
 		Buckets: s3response.ListAllMyBucketsList{
 			Bucket: buckets,
